@@ -106,8 +106,8 @@ def run(res, pid):
     cone = [f for f in t["cone"] if os.path.exists(os.path.join(core.TH, f))]
     concur.concurrent_check(res, pid, cone, t["kinds"], t["n"][0], t["n"][1], t["oracle"], known, RULE, ASSUME,
                             props_ready=ready)
-    if pid in ("C01", "C12", "C11"):
-        real_slice(res, pid, {"C01": "byvalue", "C12": "ghost", "C11": "state"}[pid])
+    if pid in ("C01", "C12", "C11", "C04"):
+        real_slice(res, pid, {"C01": "byvalue", "C12": "ghost", "C11": "state", "C04": "exc"}[pid])
     if pid == "C03":
         import traverse
         try:
